@@ -57,7 +57,8 @@ LEVEL_TEXT = (
 LEVEL_NOTE = ("Trusted: bash 5.2 itself (observer chunk uses only quoted expansions and printf), /usr/bin/env. "
               "No proof of absence; value length is bounded (<= ~40 tokens).")
 RULE = (
-    "first a deterministic family (single quote paired with every special character / executable payload, each special "
+    "first deterministic families: sizes (payload just below/above 4 KiB, 64 KiB, 128 KiB, 1 MiB; one huge / many medium "
+    "values; inline, file, metadata path) and quoting (single quote paired with every special character / executable payload, each special "
     "alone, multi-line payloads via embedded newline or the non-exported marker, x transports), then hypothesis: "
     "env = 1..5 harness-prefixed names -> str | list/tuple of str, text built from a token alphabet (' \" \\ $ ` newline "
     "tab ! * ; & | < > ( ) { } # ~ space, escapes like \\n \\' \\\\ $'..' $(echo q) `echo q`, control chars, BMP and "
@@ -313,9 +314,48 @@ def _fake_pkg(ebuild_path):
                                  ebuild=types.SimpleNamespace(path=ebuild_path), eapi=eapi.get_eapi("8"))
 
 
+_PLAIN = "Lorem ipsum dolor-sit_amet, consectetur/adipiscing.elit 0123456789 "
+_MIXED = "it's a \"mixed\" \\ value: $Q `q` caf\u00e9 {x} (y)\n\ttab; "
+
+
+def expand_items(case):
+    """items of a case; `sized` cases are stored compactly ({"target": bytes, "shape": one|many, "text": plain|mixed})
+    and expanded deterministically here: one huge value, or many medium values (1000 bytes; 16 KiB from 512 KiB up),
+    so that the total payload is about `target` bytes"""
+    if "sized" not in case:
+        return case["items"]
+    sz = case["sized"]
+    pat = _PLAIN if sz.get("text", "plain") == "plain" else _MIXED
+    target = sz["target"]
+
+    def text(n, salt):
+        body = (f"<{salt}>" + pat) * (n // len(pat) + 2)
+        out = body[:n]
+        while len(out.encode("utf8")) > n:  # non-ASCII in the mixed pattern: trim to the byte size
+            out = out[:-1]
+        return out
+
+    # a single string > 128 KiB (MAX_ARG_STRLEN) or > ~2 MiB in total cannot be handed to any child process by the
+    # kernel, whoever exports it; such values are only transferred as non-exported shell variables
+    if sz["shape"] == "one":
+        return [["VT_big", text(target, 0), target < 100000]]
+    step = 1000 if target < 512 * 1024 else 16384
+    per = step + 16  # NAME='...' plus separator
+    n = max(2, target // per)
+    return [[f"VT_m{i}", text(step, i), i % 5 == 0] for i in range(n)]
+
+
+def _short(x, n=160):
+    r = repr(x)
+    return r if len(r) <= n else f"{r[:n // 2]}...<{len(r)} chars>...{r[-n // 2:]}"
+
+
 def check_env(ctx, dm: Daemon, case, record=True):
     """transfer one environment and compare.  Returns set of buckets reported for this case."""
-    items = case["items"]
+    stored = case  # what is recorded / saved (compact for sized cases)
+    items = expand_items(case)
+    case = dict(case, items=items)
+    sized = "sized" in case
     transport = case["transport"]
     names = [n for n, _, _ in items]
     feats = {n: value_features(v) for n, v, _ in items}
@@ -323,12 +363,14 @@ def check_env(ctx, dm: Daemon, case, record=True):
     if record:
         classes = sorted({f"t:{transport}", f"marker:{case.get('marker')}"} | {f"v:{x}" for x in allf}
                          | ({"has_nonexported"} if any(not e for _, _, e in items) else set()))
-        ctx.case(case, nontrivial=any(nontrivial_value(f) for f in feats.values()), classes=classes)
+        if sized:
+            classes += [f"size:{_size_class(case['sized']['target'])}", f"shape:{case['sized']['shape']}"]
+        ctx.case(stored, nontrivial=sized or any(nontrivial_value(f) for f in feats.values()), classes=classes)
     reported = set()
 
     def viol(bucket, msg):
         reported.add(bucket)
-        ctx.violation(bucket, case, msg)
+        ctx.violation(bucket, stored, msg if len(msg) < 1500 else msg[:700] + " ...<cut>... " + msg[-500:])
 
     env = build_env(case)
     ebp = dm.get()
@@ -374,10 +416,11 @@ def check_env(ctx, dm: Daemon, case, record=True):
         try:
             with _AccountingAlarm(tee, "start_receiving_env bytes ", "send_env reply"):
                 ok = core.guarded(ctx, case, lambda: ebp.send_env(env, tmpdir=dm.cwd if transport == "file" else None),
-                                  expected=(ebd.EbdHang,) + _PROTOCOL_ERRORS())
+                                  expected=(ebd.EbdHang, RuntimeError, OSError) + _PROTOCOL_ERRORS())
         except ebd.EbdHang as e:
             hang = e
-        except _PROTOCOL_ERRORS() as e:  # pkgcore relaying the daemon's `dying ...` notice and the like
+        except (RuntimeError, OSError) + _PROTOCOL_ERRORS() as e:
+            # pkgcore relaying the daemon's `dying ...` notice, or EPIPE because the daemon died mid-transfer
             ok = f"{type(e).__name__}: {str(e)[:200]}"
     finally:
         written = "".join(tee.rec)
@@ -414,11 +457,13 @@ def check_env(ctx, dm: Daemon, case, record=True):
                 payload = f.read()
         except OSError:
             payload = ""
-    pclass = "multiline-payload" if "\n" in payload else culprit
+    pclass = ("multiline-payload" if "\n" in payload else culprit) + _size_suffix(len(payload.encode("utf8")))
 
     def transfer_failed(kind, detail):
         risky = (culprit.startswith("seq-element") and not culprit.endswith(":plain")) or culprit.startswith("scalar-with")
-        bucket = f"quoting:{culprit}" if risky and kind == "rejected" else f"transfer-failed:{transport}:{pclass}"
+        small = len(payload.encode("utf8")) < 4096
+        bucket = (f"quoting:{culprit}" if risky and small and kind == "rejected"
+                  else f"transfer-failed:{transport}:{pclass}")
         viol(bucket, f"[{transport}] {kind}: {detail}; payload {payload[:120]!r}; daemon stderr: {dm.stderr_tail()!r}")
 
     if hang is not None:
@@ -446,16 +491,19 @@ def check_env(ctx, dm: Daemon, case, record=True):
 
     # ---- observe (harness chunk; pkgcore's part completed normally and the channel was in sync: trouble here is ours)
     try:
-        if not sess.run_code(observer_code(names, out, envout)):
+        # sized cases: no child process (execve refuses strings > 128 KiB / environments > ARG_MAX)
+        if not sess.run_code(observer_code(names, out, None if sized else envout)):
             raise core.HarnessError("observer chunk not acknowledged although the channel was in sync")
         with open(out, "rb") as f:
             obs = parse_observation(f.read())
-        with open(envout, "rb") as f:
-            child = _parse_env0(f.read())
+        child = None
+        if not sized:
+            with open(envout, "rb") as f:
+                child = _parse_env0(f.read())
     except (ebd.EbdHang, ValueError, OSError) as e:
         dm.kill()
         raise core.HarnessError(f"could not observe the shell after a completed transfer: {e} "
-                                f"(case {core.jdump(case)[:300]}; daemon stderr {dm.stderr_tail()!r})") from None
+                                f"(case {core.jdump(stored)[:300]}; daemon stderr {dm.stderr_tail()!r})") from None
     compare(case, obs, child, viol, transport)
 
     # ---- channel still synchronised: session end and main loop (pkgcore protocol requests)
@@ -518,6 +566,18 @@ class _AccountingAlarm:
         return False
 
 
+def _size_class(n):
+    for lim, nm in ((4096, "<4KiB"), (65536, "4-64KiB"), (131072, "64-128KiB"), (1048576, "128KiB-1MiB")):
+        if n < lim:
+            return nm
+    return ">=1MiB"
+
+
+def _size_suffix(nbytes):
+    """payloads below 4 KiB are the ordinary case; above, the size class is part of the root-cause key"""
+    return "" if nbytes < 4096 else ":payload-" + _size_class(nbytes)
+
+
 def _main_loop_alive(ebp, timeout=None):
     with ebd.alarm(timeout or TIMEOUT, "main loop alive reply"):
         ebp.write("alive")
@@ -557,14 +617,15 @@ def compare(case, obs, child, viol, transport):
             if "a" not in flags:
                 viol(f"seq-not-array:{rc}", f"[{transport}] {name}: flags {flags!r}, expected an indexed array")
             if pairs != want:
-                viol(f"quoting:{rc}", f"[{transport}] value: {name}: sent {v!r}, daemon has {pairs!r}")
+                viol(f"quoting:{rc}", f"[{transport}] value: {name}: sent {_short(v)}, daemon has {_short(pairs)}")
         else:
             want = [("0", v.encode("utf8"))]
             if "a" in flags or "A" in flags:
                 viol(f"scalar-is-array:{rc}", f"[{transport}] {name}: flags {flags!r}")
             if pairs != want:
-                viol(f"quoting:{rc}", f"[{transport}] value: {name}: sent {v!r} ({v.encode('utf8')!r}), daemon has "
-                                    f"{[p[1] for p in pairs]!r}")
+                viol(f"quoting:{rc}", f"[{transport}] value: {name}: sent {_short(v.encode('utf8'))} ({len(v.encode('utf8'))} "
+                                    f"bytes), daemon has {_short([p[1] for p in pairs])} "
+                                    f"({[len(p[1]) for p in pairs]} bytes)")
         if ("x" in flags) != bool(exported):
             viol("export-flag:" + ("lost" if exported else "leaked"),
                  f"[{transport}] {name}: flags {flags!r}, expected exported={exported}")
@@ -641,7 +702,7 @@ def _check_depend(ctx, dm, case, env, names, out, viol, symptom, reported):
     # pkgcore's own exchange (no harness chunk is ever sent on this path)
     culprit = _first_risky(case["items"])
     # the constant part (PKGCORE_EBUILD_PHASES ... on the export line) is single-line; what the case adds decides
-    pclass = "multiline-payload" if payload.count("\n") else culprit
+    pclass = ("multiline-payload" if payload.count("\n") else culprit) + _size_suffix(actual)
     risky = (culprit.startswith("seq-element") and not culprit.endswith(":plain")) or culprit.startswith("scalar-with")
     if hang is not None:
         viol(f"transfer-failed:depend:{pclass}", f"[depend] hang: gen_metadata got no reply although the announced byte "
@@ -718,8 +779,30 @@ def family_cases():
     return out
 
 
+def size_cases():
+    """size dimension (real ebuild environments are routinely > 64 KiB): total payload just below/above 4 KiB, 64 KiB,
+    128 KiB and 1 MiB, as one huge value or many medium values, inline and file transport (+ two metadata-path cases);
+    stored compactly, expanded by expand_items()"""
+    out = []
+    for t in (4096, 65536, 131072, 1048576):
+        for target in (t - 300, t + 300):
+            for shape in ("one", "many"):
+                for tr in ("inline", "file"):
+                    out.append({"transport": tr, "sized": {"target": target, "shape": shape, "text": "plain"},
+                                "marker": "auto", "tuples": False})
+    for target in (65536 + 300, 131072 + 300):
+        for tr in ("inline", "file"):
+            out.append({"transport": tr, "sized": {"target": target, "shape": "one", "text": "mixed"},
+                        "marker": "auto", "tuples": False})
+    for shape in ("one", "many"):
+        out.append({"transport": "depend", "sized": {"target": 65536 + 300, "shape": shape, "text": "plain"},
+                    "marker": "auto", "tuples": False})
+    return out
+
+
 def plan(tier, seed):
-    fam = [{"task": "family", "slice": i, "nslices": 4} for i in range(4)]
+    fam = ([{"task": "sizes", "slice": i, "nslices": 2} for i in range(2)]
+           + [{"task": "family", "slice": i, "nslices": 4} for i in range(4)])
     # ~20-40 ms per environment on an idle machine (one phase session, three harness chunks, one child process)
     if tier == "quick":
         return fam + [{"task": "hyp", "examples": 160, "transports": tr}
@@ -729,13 +812,13 @@ def plan(tier, seed):
 
 
 def run_task(ctx, task, **kw):
-    if task not in ("hyp", "family"):
+    if task not in ("hyp", "family", "sizes"):
         raise core.HarnessError(f"unknown task {task}")
     dm = Daemon(ctx)
-    if task == "family":
+    if task in ("family", "sizes"):
         try:
-            cases = family_cases()
-            ctx.note("family_size", len(cases))
+            cases = family_cases() if task == "family" else size_cases()
+            ctx.note(f"{task}_size", len(cases))
             for i, c in enumerate(cases):
                 if i % kw["nslices"] == kw["slice"]:
                     if ctx.out_of_time():
@@ -767,6 +850,8 @@ def replay(ctx, case):
 
 def shrink_case(ctx, bucket, case):
     """greedy: single variable, then drop characters / elements while the same bucket is reported"""
+    if "sized" in case:
+        return None  # already a compact, deterministic case
     if len(case["items"]) == 1 and sum(len(e) for e in (case["items"][0][1] if isinstance(case["items"][0][1], list)
                                                       else [case["items"][0][1]])) <= 3:
         return None  # already minimal (e.g. a committed replay)
